@@ -285,4 +285,37 @@ theorem hasVisible_iff {K} (hasKey : K → Bool) (cur : K) (deps : List K) :
     hasVisibleTraitImpl hasKey cur deps = true ↔ hasKey cur = true ∨ ∃ d ∈ deps, hasKey d = true := by
   simp [hasVisibleTraitImpl]
 
+/-! ## UFCS calls on trait objects, calls in statement position -/
+
+/-- the dynamic path is taken only for a trait object of the trait the call names -/
+theorem dyn_call_only_for_own_trait (tr m tr' m' : Name) (recvTy : Ty)
+    (h : staticMemberCallPath tr recvTy m = .dynCall tr' m') : recvTy = .tdyn tr ∧ tr' = tr ∧ m' = m := by
+  unfold staticMemberCallPath at h
+  split at h
+  · rename_i a
+    by_cases ha : (a == tr) = true
+    · simp only [ha, if_true, MemberCallPath.dynCall.injEq] at h
+      have : a = tr := by simpa using ha
+      exact ⟨by rw [this], h.1.symm, h.2.symm⟩
+    · simp [ha] at h
+  · exact MemberCallPath.noConfusion h
+
+/-- `B::m(d)` on `d : dyn A`, `A ≠ B`, is an ordinary static call: it needs `impl B for dyn A`, and by
+`call_forms_static_bounded_agree` it names the same function as the `T: B` forms instantiated at `dyn A` -/
+theorem other_trait_on_dyn_is_static (a tr m : Name) (h : a ≠ tr) (σ : List (Name × Ty)) (recvTy : Ty)
+    (hσ : substTy σ recvTy = .tdyn a) :
+    staticMemberCallPath tr (.tdyn a) m = .overloaded tr (.tdyn a) m ∧
+    coreCallTarget tr (.tdyn a) m = .direct (implDefName tr (.tdyn a) m) ∧
+    monoCallee σ tr recvTy m = implDefName tr (.tdyn a) m := by
+  have hb : (a == tr) = false := by simpa using h
+  refine ⟨by simp [staticMemberCallPath, hb], ?_, ?_⟩
+  · exact (call_forms_static_bounded_agree σ tr m recvTy (.tdyn a) hσ (by simp [hasTParam])).2
+  · exact (call_forms_static_bounded_agree σ tr m recvTy (.tdyn a) hσ (by simp [hasTParam])).1
+
+example : staticMemberCallPath "Quiet".toList (.tdyn "Loud".toList) "name".toList =
+    .overloaded "Quiet".toList (.tdyn "Loud".toList) "name".toList := by rfl
+
+/-- a method call compiled for its effect always emits a statement, whatever the call form -/
+theorem call_forms_emit_statement : effectEmitsStatement .call = true ∧ effectEmitsStatement .dynCall = true := ⟨rfl, rfl⟩
+
 end Goml.Mangle
